@@ -93,7 +93,24 @@ Joins == UNION { LET lets == { LetOf(<<VX, AssignT>> \o key, body) : body \in Co
                 <<B, LB, Star, RB, Dot, LB>> \o LetOf(<<VX, AssignT, Id(<<97>>)>>,
                       RootB \o <<Filt, Id(<<97>>), EqT, VX, RB, Dot, LB>> \o LetOf(<<VY, AssignT, Id(<<97>>)>>, Len1(RootB \o <<Filt, Id(<<97>>), EqT, VY, AndT, Id(<<97>>), EqT, VX, RB>>)) \o <<RB>>) \o <<RB>> }
 
-Exprs == { LetOf(bs, b) : bs \in Binds, b \in Body0 } \cup BigLets \cup Joins
+\* ... and a let whose VALUE is an expression-reference function over a path rooted at $, with a key
+\* that reads a variable bound per element by an enclosing let (the binding looks constant, it is not)
+VO == VarT(<<36,111>>)  VN2 == VarT(<<36,110>>)
+Af == Id(<<97>>)
+KeyAbs == <<Id(<<97,98,115>>), LP, Af, MinusT, VO, Dot, Af, RP>>                 \* abs(a - $o.a)
+ByForms == { <<Id(<<109,105,110,95,98,121>>), LP>> \o RootB \o <<Comma, AmpT>> \o KeyAbs \o <<RP>>,
+             <<Id(<<109,97,120,95,98,121>>), LP>> \o RootB \o <<Comma, AmpT>> \o KeyAbs \o <<RP>>,
+             <<Id(<<115,111,114,116,95,98,121>>), LP>> \o RootB \o <<Comma, AmpT>> \o KeyAbs \o <<RP, LB, IntT(<<48>>), RB>>,
+             <<Id(<<115,111,114,116,95,98,121>>), LP>> \o RootB \o <<Comma, AmpT>> \o KeyAbs \o <<RP, LB, IntT(<<45,49>>), RB>>,
+             <<Id(<<109,97,112>>), LP, AmpT, LP, Af, PlusT, VO, Dot, Af, RP, Comma>> \o RootB \o <<RP>>,
+             <<Id(<<103,114,111,117,112,95,98,121>>), LP>> \o RootB \o <<Comma, AmpT, Id(<<116,111,95,115,116,114,105,110,103>>), LP, Af, EqT, VO, Dot, Af, RP, RP>> }
+ByJoins == UNION { { <<B, LB, Star, RB, Dot, LB>> \o LetOf(<<VO, AssignT, CurT>>, LetOf(<<VN2, AssignT>> \o f, <<VN2>>)) \o <<RB>>,
+                     <<B, LB, Star, RB, Dot, LB>> \o LetOf(<<VO, AssignT, CurT>>, LetOf(<<VN2, AssignT>> \o f, <<LB, VO, Dot, Af, Comma, VN2, RB>>)) \o <<RB>>,
+                     <<Id(<<109,97,112>>), LP, AmpT, LP>> \o LetOf(<<VO, AssignT, CurT>>, LetOf(<<VN2, AssignT>> \o f, <<VN2>>)) \o <<RP, Comma, B, RP>>,
+                     <<B, LB, Star, RB, Dot, LB>> \o LetOf(<<VO, AssignT, CurT, Comma, VN2, AssignT, Json(<<96,48,96>>)>>, LetOf(<<VN2, AssignT>> \o f, <<VN2>>)) \o <<RB>> }
+                   : f \in ByForms }
+
+Exprs == { LetOf(bs, b) : bs \in Binds, b \in Body0 } \cup BigLets \cup Joins \cup ByJoins
          \cup (IF Depth >= 2 THEN { LetOf(bs, b) : bs \in Binds, b \in Body1 } ELSE {})
          \cup (IF Depth >= 3 THEN { LetOf(bs, b) : bs \in {<<VX, AssignT, A>>, <<VY, AssignT, B, Comma, VX, AssignT, Json(<<96,49,96>>)>>, <<VX, AssignT, Json(<<96,110,117,108,108,96>>)>>}, b \in Body2 } ELSE {})
          \cup Body0                                              \* no enclosing binding: undefined variable
